@@ -115,7 +115,10 @@ def run(spec, env):
         if spec["cancel_futures"] is not None:
             kw["cancel_futures"] = spec["cancel_futures"]
         env.rec("shutdown2")
-        ex.shutdown(spec["wait"], **kw)
+        try:
+            ex.shutdown(spec["wait"], **kw)
+        except Exception as exc:      # judged by the oracle, not a harness error
+            env.rec("shutdown-raised", 2, type(exc).__name__)
         env.rec("shutdown2-ret")
         env.hit("shutdown2-ret")
 
@@ -128,7 +131,10 @@ def run(spec, env):
         for r in range(spec["repeat"]):
             i = env.rec("shutdown", r, spec["wait"], tuple(sorted(kw.items())))
             env.hit("shutdown-begin")
-            ex.shutdown(spec["wait"], **kw)
+            try:
+                ex.shutdown(spec["wait"], **kw)
+            except Exception as exc:  # judged by the oracle, not a harness error
+                env.rec("shutdown-raised", 1, type(exc).__name__)
             env.rec("shutdown-ret", r, lib_alive(), i)
         if spec.get("shutters", 1) > 1:
             # the call that lost the race returns early: inner executors are only guaranteed to
@@ -187,6 +193,10 @@ def check(spec, env):
     nend = [e for e in log if e[3] == "post-submit"]
     sub_b = {e[0]: e for e in log if e[3] == "submit"}
     sub_r = set(e[7] for e in log if e[3] == "submit-ret")
+    raised = sorted(set(e[5] for e in log if e[3] == "shutdown-raised"))
+    if raised:
+        return [{"oracle": "shutdown-returns", "sig": "shutdown-raised|%s|%s" % (cul, ",".join(raised)),
+                 "msg": "shutdown() raised %s; layers %s" % (raised, types)}]
     if sim.outcome[0] in ("horizon", "stuck") and sds and len(srs) == len(sds) and (len(nbeg) > len(nend) or any(k not in sub_r for k in sub_b)):
         who = nbeg[len(nend)][4] if len(nbeg) > len(nend) else "racing"
         out.append({"oracle": "submit-after-shutdown", "sig": "submit-blocked-forever|%s|%s" % (cul, "after-shutdown" if len(nbeg) > len(nend) else "racing"),
